@@ -852,8 +852,8 @@ func runC10SortKey(c *Ctx) {
 			c.Check(whole, ci.Pos(), FuncName(f), fmt.Sprintf("%s over []%s", name, en), "ordered by Sequence.less on the whole coordinate sequence", "the comparison function never compares the elements' whole coordinate sequences (no call of Sequence.less): elements that agree on the part it does look at are tied and keep their arrival order, which for these lists is map-iteration order — the result is no longer a deterministic function of the inputs")
 		})
 	}
-	if n < 3 {
-		c.Errorf("only %d sorts of part lists found, expected >= 3", n)
+	if n < 1 {
+		c.Errorf("no sort of a part list found, expected >= 1 (3 when the rule was written)")
 	}
 }
 
